@@ -372,6 +372,9 @@ func main() {
 			history{w + ": put, then batch of 3 containing a large one, then put", [][]op{{put(5), batch(4, 6, 7), put(0)}}, g},
 			history{w + ": two concurrent small puts sharing a batch", [][]op{{put(0)}, {put(1)}}, g},
 			history{w + ": concurrent put and batch, then delete", [][]op{{put(0), del(0)}, {batch(1, 3)}}, g},
+			history{w + ": same small object put twice, same large object put twice", [][]op{{put(0), put(0), put(2), put(2)}}, g},
+			history{w + ": batch over already stored objects", [][]op{{put(1), put(4), batch(1, 3, 4)}}, g},
+			history{w + ": two concurrent puts of the same object", [][]op{{put(0)}, {put(0)}}, g},
 		)
 		if r.Thorough() {
 			hs = append(hs,
